@@ -10,6 +10,7 @@ external events*:
     p_eof / lost / lost_err  the peer closes its end / the transport is dropped without / with an error
     cancel_recv / cancel_close  task.cancel() of the task blocked in receive() / close()
     tick                     virtual time jumps to the next pending timer (heartbeat, pong, receive, close timeout)
+    p_text@t / p_pong@t      the peer's frame arrives in the very iteration in which the next timer is due (I/O first)
     wait                     1 s of virtual time passes (less than every configured timeout)
 
 each followed by `gap` loop iterations (0, 1, 2) or a full settle().  Every schedule is re-executed from scratch;
@@ -571,6 +572,12 @@ class WsRun:
             ev.append("cancel_close")
         if self.loop.next_timer() is not None and self.n("tick") < M["tick"]:
             ev.append("tick")
+            if self.peer_can_send():
+                # the peer's frame arrives in the very loop iteration in which the next timer is due (a selector
+                # wakes up at the timer's deadline with the socket readable: I/O callbacks run first, then timers)
+                for k in ("p_text", "p_pong"):
+                    if self.n(k) < M[k] and (k != "p_pong" or self.hb):
+                        ev.append(k + "@t")
             if self.n("wait") < M["wait"]:
                 ev.append("wait")
         return ev
@@ -628,6 +635,25 @@ class WsRun:
                     c.cancelled_by_harness = True
                     c.task.cancel()
                     break
+        elif kind.endswith("@t"):
+            base = kind[:-2]
+            self.counts[base] = self.n(base) + 1
+            self.counts["tick"] = self.n("tick") + 1
+            # a loop only sleeps until a timer's deadline when nothing is ready: run what is ready at the current time
+            # first (exactly what `tick` does before its jump), then let the frame arrive at the deadline
+            lp.settle(20000)
+            w = lp.next_timer()
+            frame = (OP_TEXT, b"hello") if base == "p_text" else (OP_PONG, b"")
+            if w is not None and self.peer_can_send():
+                self.facts.add("tick")
+                self.facts.add("io-with-timer")
+                cands = self._timer_candidates()
+                lp.jump_to(w)
+                self.peer.frame(*frame)
+                lp.advance(0.0, max_iters=20000)
+                self._note_fired(cands)
+            elif self.peer_can_send():
+                self.peer.frame(*frame)
         elif kind == "tick":
             w = lp.next_timer()
             if w is not None:
@@ -805,7 +831,7 @@ class WsRun:
         Everything else (a close frame was received but the handshake was then disturbed) is grey."""
         ws = self.ws
         got = ws.close_code
-        kinds = [k for k, _ in self.events]
+        kinds = [x for k, _ in self.events for x in ((k[:-2], "tick") if k.endswith("@t") else (k,))]
         disturbed = [k for k in kinds if k in ("p_eof", "lost", "lost_err", "cancel_recv", "cancel_close", "tick", "wait")]
         recv_timeout_hit = any(e == ("exc", "TimeoutError") for e in self.recv_log)
         aio_close = self.aio_close_frames()
@@ -959,7 +985,7 @@ def execute(cell, schedule, rseed=0, final=False, maxc=None):
 
 def nontrivial(run):
     k = 0
-    kinds = {e for e, _ in run.events}
+    kinds = {x for e, _ in run.events for x in ((e[:-2], "tick") if e.endswith("@t") else (e,))}
     k += 1 if "recv" in kinds else 0
     k += 1 if "close" in kinds else 0
     k += 1 if "p_close" in kinds else 0
@@ -1086,7 +1112,7 @@ def dfs(spec, rec):
             for g in gaps:
                 if g != GAP_SETTLE and nos >= spec["max_nosettle"]:
                     continue
-                if g != GAP_SETTLE and ev in ("tick", "wait"):
+                if g != GAP_SETTLE and (ev in ("tick", "wait") or ev.endswith("@t")):
                     continue
                 explore(schedule + [(ev, g)])
 
@@ -1100,7 +1126,7 @@ def dfs(spec, rec):
         rec.note(f"cell {list(cell)}: state budget {budget} reached; enumeration truncated (reported as not exhaustive)")
 
 
-WEIGHTS = {"recv": 4, "send": 2, "close": 3, "p_text": 2, "p_ping": 2, "p_close": 3, "p_pong": 1.5, "p_eof": 1, "lost": 0.7, "lost_err": 0.7, "cancel_recv": 1.2, "cancel_close": 1.2, "tick": 2.5, "wait": 2.0}
+WEIGHTS = {"recv": 4, "send": 2, "close": 3, "p_text": 2, "p_ping": 2, "p_close": 3, "p_pong": 1.5, "p_eof": 1, "lost": 0.7, "lost_err": 0.7, "cancel_recv": 1.2, "cancel_close": 1.2, "tick": 2.5, "wait": 2.0, "p_text@t": 1.5, "p_pong@t": 1.0}
 
 
 def random_schedules(spec, rec):
@@ -1119,7 +1145,7 @@ def random_schedules(spec, rec):
                     break
                 ev = rng.choices(en, [WEIGHTS[e] for e in en])[0]
                 r = rng.random()
-                gap = GAP_SETTLE if r < 0.55 or ev in ("tick", "wait") else rng.choice([0, 0, 1, 2, 3])
+                gap = GAP_SETTLE if r < 0.55 or ev in ("tick", "wait") or ev.endswith("@t") else rng.choice([0, 0, 1, 2, 3])
                 schedule.append((ev, gap))
                 run.apply(ev, gap)
             run.final_checks()
